@@ -470,14 +470,44 @@ fn run_met(ctx: &Ctx) {
     }
 }
 
+/// surfaces that face the sun (incidence angle ~ 0: the acos argument sits at 1, where rounding can push it over)
+fn sun_facing_grid(fine: bool) -> Vec<SunCase> {
+    let mut v = vec![];
+    let span: i32 = if fine { 4 } else { 2 };
+    for lat in [28.3f32, 40.68333, 36.0, 43.0, 0.0, 60.0] {
+        let mut decl = -23.45f32;
+        while decl <= 23.46 {
+            let mut ha = -100.0f32;
+            while ha <= 100.0 {
+                let s = sun_vector(lat as f64, decl as f64, ha as f64);
+                let alt = s[2].asin().to_degrees();
+                if alt >= 1.0 {
+                    let az = s[0].atan2(-s[1]).to_degrees();
+                    let t0 = ((90.0 - alt) * 1000.0).round() / 1000.0;
+                    let a0 = (az * 1000.0).round() / 1000.0;
+                    for dt in -span..=span {
+                        for da in -span..=span {
+                            v.push(SunCase { lat, decl, ha, tilt: (t0 + dt as f64 * 0.001) as f32, az: (a0 + da as f64 * 0.001) as f32 });
+                        }
+                    }
+                }
+                ha += 2.5;
+            }
+            decl += if fine { 0.5 } else { 1.0 };
+        }
+    }
+    v
+}
+
 pub fn run(args: &Args) -> ! {
     let ctx = Ctx::new("C20", "exploration", args);
-    ctx.rule("calendar: all 365 dates (exhaustive). sun: latitude x declination x hour angle grid (quick 4 degrees, thorough 0.5 degrees) plus random points, surfaces of 8 fixed poses on the grid and random poses; oracle = unit-vector spherical astronomy in f64, directions compared (0.05 degrees) for altitude >= 0.5. radiation: identities (horizontal conservation for altitude >= 6, downward = albedo x global, beam >= 0) on random inputs and on all 8760 hours of the shipped weather file. tables: all 32 zones x 9 classes x 12 months and the July-day hours (exhaustive): existence, signs, lengths, zone <-> string, and for D3 equality with the monthly sums / design-day rows computed from the shipped file. Non-trivial: sun up and |hour angle| >= 5 degrees; non-zero table cell; hour with global radiation > 1 W/m2 and altitude >= 6.");
+    ctx.rule("calendar: all 365 dates (exhaustive). sun: latitude x declination x hour angle grid (quick 4 degrees, thorough 0.5 degrees) plus random points, surfaces of 8 fixed poses on the grid and random poses, and (sun_facing, exhaustive) surfaces that face the sun of each grid point exactly or within 0.002 degrees (thorough 0.004) in steps of 0.001; oracle = unit-vector spherical astronomy in f64, directions compared (0.05 degrees) for altitude >= 0.5. radiation: identities (horizontal conservation for altitude >= 6, downward = albedo x global, beam >= 0) on random inputs and on all 8760 hours of the shipped weather file. tables: all 32 zones x 9 classes x 12 months and the July-day hours (exhaustive): existence, signs, lengths, zone <-> string, and for D3 equality with the monthly sums / design-day rows computed from the shipped file. Non-trivial: sun up and |hour angle| >= 5 degrees; non-zero table cell; hour with global radiation > 1 W/m2 and altitude >= 6.");
     ctx.assume("the shipped weather file climate/src/zonaD3.met is the source of the D3 tables");
     ctx.replay_regressions(replay_one);
     run_calendar(&ctx);
     let grid = sun_grid(ctx.tier().pick(1.0, 0.5));
     ctx.run_enum("sun_grid", &grid, true, check_sun);
+    ctx.run_enum("sun_facing", &sun_facing_grid(ctx.tier() == Tier::Thorough), true, check_sun);
     ctx.run_prop("sun_random", ctx.tier().pick(8_000_000, 40_000_000), sun_random, check_sun);
     ctx.run_prop("radiation_random", ctx.tier().pick(8_000_000, 40_000_000), rad_random, check_rad);
     run_tables(&ctx);
@@ -492,7 +522,7 @@ pub fn run(args: &Args) -> ! {
 pub fn replay_one(ctx: &Ctx, doc: &ReplayDoc) {
     use crate::engine::replay_case;
     match doc.sub.as_str() {
-        "sun_grid" | "sun_random" => replay_case::<SunCase>(ctx, &doc.sub, &doc.case, check_sun),
+        "sun_grid" | "sun_random" | "sun_facing" => replay_case::<SunCase>(ctx, &doc.sub, &doc.case, check_sun),
         "radiation_random" => replay_case::<RadCase>(ctx, &doc.sub, &doc.case, check_rad),
         s => ctx.infra_error(format!("replay of sub {} is not supported (enumerated domain: rerun the check)", s)),
     }
